@@ -201,6 +201,7 @@ static void run_pool(Rng& g, long nops, std::size_t node_size, std::size_t block
     };
     Pool*             older = nullptr; // the pool that will be move-assigned into the current one
     std::vector<Live> stash;           // its live allocations
+    int               grp_pool = 0, grp_older = 0, next_grp = 0; // ledger groups: the blocks of one arena travel together
     long              assign_in = 0;
     auto              do_assign = [&]
     { // *pool = std::move(*older): the current pool's blocks (and everything allocated from it) go back upstream
@@ -216,6 +217,8 @@ static void run_pool(Rng& g, long nops, std::size_t node_size, std::size_t block
         emit("pool destroy_moved_from", lk_result(lk0, a0), "-");
         older = nullptr;
         live.swap(stash);
+        grp_pool = grp_older;
+        R->cur_group = grp_pool;
         ++n_moves;
         O->verify_all("after move assignment");
     };
@@ -400,10 +403,40 @@ static void run_pool(Rng& g, long nops, std::size_t node_size, std::size_t block
             }
             ++n_cycles;
         }
+        else if (k < 88 && older != nullptr && g.chance(35))
+        { // std::swap's three moves: tmp(move(a)); a = move(b); b = move(tmp) - each assignment targets a MOVED-FROM pool
+            O->verify_all("before three-move swap");
+            {
+                Pool tmp(std::move(*pool));
+                *pool = std::move(*older);
+                *older = std::move(tmp);
+                long lk0 = Handlers::leak();
+                auto a0 = Handlers::leak_amounts().size();
+                (void)lk0;
+                (void)a0;
+            } // ~tmp: moved-from, must be inert
+            std::string px = ListKind<List>::proxies(pool->free_list_), px2 = ListKind<List>::proxies(older->free_list_);
+            for (const char* key : {" B=", " E=", " P="})
+            {
+                auto at = px2.find(key);
+                if (at != std::string::npos)
+                    px2.insert(at + 2, "2");
+            }
+            live.swap(stash);
+            std::swap(grp_pool, grp_older);
+            R->cur_group = grp_pool;
+            emit("pool swap3" + px + px2, "done", pool_state(*pool));
+            emit("pool peek2", "done", pool_state(*older));
+            ++n_moves;
+            O->verify_all("after three-move swap");
+        }
         else if (k < 88 && older == nullptr && g.chance(45))
         { // a second pool of the same kind becomes the primary; the older one is move-ASSIGNED into it later
             void*       nm = R->place_object(sizeof(Pool), alignof(Pool), g.chance(50));
             Pool*       np = nullptr;
+            grp_older = grp_pool;
+            grp_pool = ++next_grp;
+            R->cur_group = grp_pool;
             std::string res = guarded([&] { np = ::new (nm) Pool(node_size, block_size, RegionAlloc(*R)); });
             std::string op = fmt("pool new2 %zu %zu kind=%s arrays=%d src=%s", node_size, block_size, ListKind<List>::name(),
                                  (int)PoolType::value, SrcDump<typename Pool::allocator_type>::init(block_size).c_str());
@@ -411,7 +444,11 @@ static void run_pool(Rng& g, long nops, std::size_t node_size, std::size_t block
                 op += ListKind<List>::proxies(np->free_list_);
             emit(op, res.empty() ? "done" : res, np ? pool_state(*np) : "-");
             if (!np)
+            {
+                grp_pool = grp_older;
+                R->cur_group = grp_pool;
                 continue;
+            }
             emit("pool switch", "done", pool_state(*np));
             older = pool;
             pool = np;
